@@ -1,7 +1,8 @@
 //! `lin <seed> <n> <out> [dirs…]`: inputs for the C05 correspondence check (Rust `Prog::linearize` vs the
 //! Gallina model).  Two sources of typed, non-linear AxCut programs with unique binders:
 //!  (i)  the real pipeline (parse -> check -> fun2core -> focus -> shrink) on every `.sc` file below
-//!       /repo/examples, /repo/testsuite/{success_check,end_to_end} and the extra directories given;
+//!       the default corpus directories of `pipe::default_dirs` (/repo/examples,
+//!       /repo/testsuite/{success_check,end_to_end}, corpus/fun) and the extra directories given;
 //!  (ii) `n` programs from a direct random generator of well-typed non-linear AxCut (below).
 //! Case line: `(case k (in <src> <prog before> (<arg tuple> ...)) <prog after | (PANIC msg)>)`.
 use crate::rng::Rng;
@@ -12,31 +13,7 @@ use axcut::syntax::{
     Chirality, ContextBinding, Def, Identifier, Prog, Statement, Ty, TypeDeclaration, TypingContext, XtorSig,
 };
 use std::io::Write;
-use std::path::{Path, PathBuf};
 use std::rc::Rc;
-
-fn collect_sc(dir: &Path, acc: &mut Vec<PathBuf>) {
-    let Ok(rd) = std::fs::read_dir(dir) else { return };
-    let mut entries: Vec<PathBuf> = rd.filter_map(|e| e.ok().map(|e| e.path())).collect();
-    entries.sort();
-    for p in entries {
-        if p.is_dir() {
-            if p.file_name().map(|n| n == "target" || n == "target_scc").unwrap_or(false) { continue; }
-            collect_sc(&p, acc);
-        } else if p.extension().map(|e| e == "sc").unwrap_or(false) {
-            acc.push(p);
-        }
-    }
-}
-
-/// the front half of the compiler on one source text
-pub fn pipeline(src: &str) -> Result<Prog, String> {
-    let parsed = fun::parser::parse_module(src).map_err(|e| format!("parse: {e:?}"))?;
-    let checked = parsed.check().map_err(|e| format!("check: {e:?}"))?;
-    let core = fun2core::program::compile_prog(checked);
-    let focused = core.focus();
-    Ok(core2axcut::program::shrink_prog(focused))
-}
 
 fn arg_tuples(rng: &mut Rng, prog: &Prog) -> String {
     let n = prog.defs.first().map(|d| d.context.bindings.len()).unwrap_or(0);
@@ -83,20 +60,19 @@ pub fn cmd_lin_show(seed: u64) {
 
 pub fn cmd_lin(seed: u64, n: usize, out: &mut dyn Write, dirs: &[String]) {
     let mut rng = Rng::new(seed);
-    let mut files = Vec::new();
-    for d in ["/repo/examples", "/repo/testsuite/success_check", "/repo/testsuite/end_to_end"] {
-        collect_sc(Path::new(d), &mut files);
+    let mut dirs_all = crate::pipe::default_dirs();
+    // the whole corpus directory of the framework (corpus/fun is the last default entry)
+    if let Some(last) = dirs_all.pop() {
+        let corpus = std::path::Path::new(&last).parent().map(|p| p.to_string_lossy().to_string()).unwrap_or(last);
+        dirs_all.push(corpus);
     }
-    for d in dirs { collect_sc(Path::new(d), &mut files); }
+    dirs_all.extend(dirs.iter().cloned());
+    let files = crate::pipe::collect_sc(&dirs_all);
     let mut k = 0usize;
     for f in files {
         let Ok(src) = std::fs::read_to_string(&f) else { continue };
-        let r = std::panic::catch_unwind(|| pipeline(&src));
-        match r {
-            Ok(Ok(prog)) => { emit(out, k, "file", prog, &mut rng); k += 1; }
-            // programs the front end rejects or panics on are not inputs of this pass
-            _ => {}
-        }
+        // programs the front end rejects or panics on are not inputs of this pass
+        if let Ok(prog) = crate::pipe::shrunk(&src) { emit(out, k, "file", prog, &mut rng); k += 1; }
     }
     for _ in 0..n {
         let mut sub = rng.fork();
